@@ -242,6 +242,9 @@ def c19(pid, tier, seed):
     for (w, h) in ([(1, 1), (1, 3), (2, 2), (3, 2), (3, 3)] if q else [(w, h) for w in (1, 2, 3, 4) for h in (1, 2, 3, 4)]):
         fams.append(fam("geo_single_%dx%d" % (w, h), W=w, H=h, D=3, BarOps=("set_message", "println", "tick", "finish_and_clear"),
                         MsgShapes=("e", "a", "Wm1", "W", "W1", "2W", "2W1", "3W", "AnlB"), TextShapes=("T", "TW", "TW1", "T2W1"), Base=0, shards=4))
+    # 2-column glyphs on even widths (no glyph straddles the right edge): rows follow the columns, not the number of characters
+    fams.append(fam("geo_wide_glyphs", W=4, H=5, D=4, BarOps=("set_message", "println", "tick", "finish_and_clear"), MsgShapes=("wide3", "wide", "a"), TextShapes=("T",),
+                    Tpls=("M", "MnC"), Base=0))
     fams.append(fam("geo_multi", W=2, H=3, Multi=True, MaxBars=5, D=5 if q else 7, BarOps=("tick", "finish_and_clear", "mp_remove"), MpOps=("mp_println",),
                     TextShapes=("T",), Tpls=("M",), Fins=("AndLeave",), M0="id", shards=12))
     # set_move_cursor(true): no line is cleared, the frame is overwritten in place; with frames that keep their shape (here: wrapped lines of
@@ -484,7 +487,7 @@ def c05(pid, tier, seed):
     churn20 = churn20 if not q else churn20[::3]
     churn20.append([0] * 25 + [-1, 0, 0] * 30)     # a job that keeps creating and dropping short-lived bars while the bucket is empty
 
-    def hist(seq, R, kind, lit):
+    def hist(seq, R, kind, lit, length=1000000):
         if kind == "pos":
             sub = 250                                    # 1 ms / 4000
         elif lit:
@@ -493,7 +496,7 @@ def c05(pid, tier, seed):
             sub = (1000 // R) * 250                      # clustered around the interval the code uses
         ops = []
         cfg = {"w": 20, "h": 5, "base": 0, "x": {"R": 1000 if kind == "pos" else R, "B": 10 if kind == "pos" else 20}}
-        new = {"op": "new", "b": 1, "len": 1000000, "tpl": "P", "fin": "AndLeave", "fm": [], "m0": [], "p0": [], "pos0": 0, "tabw": 8, "hz": R, "dt": 0}
+        new = {"op": "new", "b": 1, "len": length, "tpl": "P", "fin": "AndLeave", "fm": [], "m0": [], "p0": [], "pos0": 0, "tabw": 8, "hz": R, "dt": 0}
         if kind == "single":
             ops.append(dict(new, target="spy_hz"))
         elif kind == "pty":
@@ -530,6 +533,10 @@ def c05(pid, tier, seed):
     # ordinary requests of a long-running member while short-lived members come and go (forced draws in between)
     plan.append(("multi_churn_R20", [hist(s, 20, "multi", False) for s in churn20]))
     plan.append(("multi_churn_R1", [hist(s, 1, "multi", False) for s in churn20[::4]]))
+    # a bar that is complete but not finished (position >= length from the start) is throttled like any other
+    plan.append(("single_full_R20", [hist(s, 20, "single", False, length=0) for s in cover20[::4] + steady[:1]]))
+    plan.append(("multi_full_R20", [hist(s, 20, "multi", False, length=0) for s in cover20[::6] + steady[:1]]))
+    plan.append(("posgate_full", [hist(s, 1, "pos", False, length=3) for s in cover10[::3] + steady[:1]]))
     # the limiter of the real console::Term target (TargetKind::Term), driven through a pseudo-terminal
     plan.append(("pty_R20", [hist(s, 20, "pty", False) for s in cover20[::3] + lifted20[::6] + steady[:1]]))
     plan.append(("pty_R255", [hist(s, 255, "pty", False) for s in cover20[::6] + steady[:1]]))
